@@ -38,8 +38,13 @@ static Addr from_spec(const std::string& spec) {
     return a;
 }
 // a published host text -> numeric form (fam 0: not an IP literal)
-static Addr from_text(const std::string& text) {
-    Addr a; a.text = text;
+static Addr from_text(const std::string& as_published) {
+    Addr a; a.text = as_published;
+    // an IPv6 literal may be written in brackets and may carry a zone id ("[fe80::1%eth0]"): it is still that address
+    std::string text = as_published;
+    // (the standard notations only: brackets around the whole literal, the zone inside them)
+    if (text.size() >= 2 && text.front() == '[' && text.back() == ']') text = text.substr(1, text.size() - 2);
+    if (const auto pct = text.find('%'); pct != std::string::npos && pct > 0 && text.find_first_of("[]") == std::string::npos) text = text.substr(0, pct);
     unsigned char b[16];
     if (inet_pton(AF_INET, text.c_str(), b) == 1) { a.fam = 4; for (int i = 0; i < 4; ++i) a.parts.push_back(b[i]); }
     else if (inet_pton(AF_INET6, text.c_str(), b) == 1) { a.fam = 6; for (int i = 0; i < 8; ++i) a.parts.push_back((b[2 * i] << 8) | b[2 * i + 1]); }
